@@ -44,7 +44,10 @@ func buildOracle(dir string, pkgs []*oraclePkg) (map[string]map[int]string, erro
 	main.WriteString("func run(name string, sites map[int]func() string) {\n\tvar ids []int\n\tfor id := range sites {\n\t\tids = append(ids, id)\n\t}\n\tsort.Ints(ids)\n\tfor _, id := range ids {\n\t\tfmt.Printf(\"%s %d %q\\n\", name, id, call(sites[id]))\n\t}\n}\n\nfunc main() {\n")
 	for _, p := range pkgs {
 		var src bytes.Buffer
-		fmt.Fprintf(&src, "package %s\n\nimport \"fmt\"\n\nvar _ = fmt.Sprint\n\n%s\n", p.name, oracleSessionDecls)
+		fmt.Fprintf(&src, "package %s\n\nimport \"fmt\"\n\nvar _ = fmt.Sprint\n\n%s\n%s\n", p.name, oracleSessionDecls, globalDecls)
+		for _, u := range lateUnits {
+			src.WriteString(u.Src + "\n")
+		}
 		for _, d := range p.decls {
 			src.WriteString(d)
 			src.WriteString("\n\n")
